@@ -38,9 +38,33 @@ func TestVerifC07Setup(t *testing.T) {
 		}
 		r := g.r
 		out.printf("case setup%d\n", i)
+		mappedPages := map[uint64]bool{}
 		g.begin()
 		g.refill(120)
 		alive := g.alive
+		// pages the harness has mapped so far (page numbers); after every region the leaf tables the
+		// region touches must hold nothing else (allocator frames are dirty: a table that is not
+		// cleared in full shows as stray translations)
+		tempPage := uint64(tempMappingAddr) >> 12
+		stray := func(first, n uint64) int {
+			cnt := 0
+			lo, hi := first&^511, (first+n-1)|511
+			for p := lo; p <= hi; p++ {
+				if mappedPages[p] || p == tempPage {
+					continue
+				}
+				ok := false
+				func() {
+					defer func() { _ = recover() }()
+					_, err := Translate(uintptr(p << 12))
+					ok = err == nil
+				}()
+				if ok {
+					cnt++
+				}
+			}
+			return cnt
+		}
 		reserve := func(k int) {
 			for ; k > 0 && alive; k-- {
 				before := uint64(earlyReserveLastUsed)
@@ -50,10 +74,19 @@ func TestVerifC07Setup(t *testing.T) {
 				}
 				obs, cont := m.exec([]uint64{uint64(1 + r.intn(1<<20)), size, 3}, "region")
 				if !cont || code(obs) != 0 {
-					alive = false // allocator script exhausted etc.: not a reservation outcome
+					// with 120 free frames a small region always fits and maps: a failure or a fault of the
+					// software MMU (walking through table entries that should have been cleared) is reported
+					out.printf("R %d %d | 0 0 %d\n", before, size, uint64(earlyReserveLastUsed))
+					out.printf("# region failed: %s\n", obs)
+					alive = false
 					return
 				}
 				out.printf("R %d %d | 1 %d %d\n", before, size, uint64(earlyReserveLastUsed), uint64(earlyReserveLastUsed))
+				first, n := uint64(earlyReserveLastUsed)>>12, (size+4095)/4096
+				for p := first; p < first+n; p++ {
+					mappedPages[p] = true
+				}
+				out.printf("X | %d %d %d\n", stray(first, n), first, n)
 			}
 		}
 		pre := r.between(1, 5)
